@@ -1724,6 +1724,8 @@ class Function:
              nonneg=()       names of input symbols (or a predicate on the name) known to be >= 0
              fits=None       callable(term, from_bits, to_bits, signed) -> reason string | None: accept a narrowing
              inputs=None     callable(name, type_str) -> term | None: substitute an input (compose drivers)
+             max_unroll=64   visits of one block on one path
+             cut_loops=False True: paths reaching the limit are set aside in Summary.cut instead of Undecided (see Interp)
         """
         return Interp(self.mod, opts).run(self)
 
@@ -1931,6 +1933,11 @@ class Interp:
         self.pointers = dict(opts.get('pointers') or {})     # input location -> (global name, byte offset)
         self.unroll = opts.get('unroll', True)
         self.max_unroll = opts.get('max_unroll', MAX_UNROLL)
+        # cut_loops=True: a path that visits a block more than max_unroll times is set aside in Summary.cut (its guard holds the
+        # continue conditions of the iterations executed so far) instead of making the whole summary Undecided; the completed
+        # paths are then the executions that leave every loop within max_unroll iterations - NOT all executions
+        self.cut_loops = opts.get('cut_loops', False)
+        self.cut = []
 
     # ---------------------------------------------------------------- inputs
     def input_scalar(self, name, ty):
@@ -2762,6 +2769,20 @@ class Interp:
             c_ = flit(pred, a_.elems[0].term, b_.elems[0].term)
             bits_ = a_.elems[0].bits
             return True, AggV([FpV(bits_, mk_sel(c_, ALLONES, sp.Integer(0)))] + list(a_.elems[1:]))
+        m = re.match(r'^llvm\.x86\.sse2?\.cvt(t?)s[sd]2si(64)?$', name)
+        if m and len(args) == 1:
+            # scalar float -> signed integer conversion of lane 0: cvtt.. truncates (= fptosi), cvt.. rounds to nearest even under
+            # the default MXCSR (= fptosi(rint(.))); out of range / NaN gives the "integer indefinite" 0x80..0, i.e. like fptosi the
+            # term only denotes the value for operands whose (rounded) value fits the result type
+            v = args[0]
+            if v.kind != 'a' or v.elems[0].kind != 'f':
+                raise Undecided('%s on a non-vector' % name)
+            N = 64 if m.group(2) else 32
+            t0 = v.elems[0].term
+            if not m.group(1):
+                f0 = fold_atom('rint', [norm(t0)])
+                t0 = f0 if f0 is not None else atom('rint', t0)
+            return True, IntV(N, atom('fptosi%d' % N, t0), sx=True, ux=False, mag=N - 1)
         m = re.match(r'^llvm\.x86\.avx512\.(rcp14|rsqrt14)\.s[sd]$', name)
         if m and len(args) == 4:
             # (a, b, src, mask): lane 0 = estimate of b[0] when mask bit 0 is set (else src[0]); upper lanes from a
@@ -2865,6 +2886,10 @@ class Interp:
             if idx == 0:
                 vk = (fn.name, depth, bname)
                 P.visits[vk] = P.visits.get(vk, 0) + 1
+                if P.visits[vk] > self.max_unroll and self.cut_loops:
+                    P.cut = (fn.name, bname)
+                    self.cut.append(P)
+                    continue
                 if P.visits[vk] > self.max_unroll:
                     raise Undecided('%s: loop through %s is not bounded by compile-time constants (more than %d iterations on one path)'
                                     % (fn.name, bname, self.max_unroll))
@@ -3162,6 +3187,7 @@ class Summary:
         self.fn = fn
         self.paths = [p for p in paths if not p.aborted]
         self.aborted = [p for p in paths if p.aborted]
+        self.cut = list(getattr(interp, 'cut', []))      # only with summary(cut_loops=True): paths set aside at the iteration limit
         self._outs = None
         if not self.paths:
             raise Undecided('%s: no path returns' % fn.name)
